@@ -47,6 +47,11 @@ pub struct Plan10 {
     /// ("missing" | "O" | "O2" | "denied" | "malformed")
     #[serde(default)]
     pub fs_history: Vec<String>,
+    /// pieces of program text that must be found verbatim in the code part of every output
+    /// (`true`: only when comments are kept) - multi-line literals / comments with a line that
+    /// looks like a reference comment
+    #[serde(default)]
+    pub planted: Vec<(String, bool)>,
 }
 
 pub struct C10;
@@ -247,6 +252,38 @@ fn plan10(seed: u64, run: u64, tier: Tier) -> Plan10 {
             tags.push("lookalike-literal".into());
         }
     }
+    // multi-line program text one of whose lines, taken alone, reads like a reference comment
+    let mut planted: Vec<(String, bool)> = Vec::new();
+    if rng.chance(1, 5) {
+        let url = match rng.below(3) {
+            0 => "decoy.js.map".to_string(),
+            1 => format!("{}.map", file.rsplit('/').next().unwrap_or("x.js")),
+            _ => "data:application/json;base64,e30=".to_string(),
+        };
+        let mut head = String::new();
+        if rng.chance(2, 3) {
+            let lit = format!("`first line\n//# sourceMappingURL={}\nlast line`", url);
+            head.push_str(&format!("const planted1 = {};\n", lit));
+            planted.push((lit, false));
+        }
+        if rng.chance(1, 2) {
+            let lit = format!("`a ${{a}}\n//# sourceMappingURL={}\n${{a}} b`", url);
+            head.push_str(&format!("function planted2(a) {{ return {}; }}\n", lit));
+            planted.push((format!("\n//# sourceMappingURL={}\n", url), false));
+        }
+        if rng.chance(1, 2) {
+            let c = format!("/* banner\n//# sourceMappingURL={}\n   end of banner */", url);
+            head.push_str(&format!("{}\nfunction planted3(a, b) {{ return a + b; }}\n", c));
+            planted.push((c, true));
+        }
+        if rng.chance(1, 3) {
+            let c = format!("/*\n//@ sourceMappingURL={}\n*/", url);
+            head.push_str(&format!("function planted4(a, b) {{ return a + b; }}\n{}\n", c));
+            planted.push((c, true));
+        }
+        program = format!("{}{}", head, program);
+        tags.push("planted-multiline".into());
+    }
     tags.push(format!("ref:{ref_kind}"));
     // benign plan: short reads + EINTR
     let mut benign = FaultPlan::default();
@@ -313,6 +350,7 @@ fn plan10(seed: u64, run: u64, tier: Tier) -> Plan10 {
         parent_none,
         orig_map2,
         fs_history,
+        planted,
         file,
         program,
         ref_text,
@@ -392,6 +430,18 @@ fn check_composition(r: &Map, o: &Map, t: &Map) -> Result<(usize, usize, usize),
                 without_o += 1;
                 // the composition yields nothing here: the chained map may not have a sourced token of
                 // its own at this very position (what a *lookup* falls back to is not constrained)
+                if other.is_some() {
+                    // the original map says "unmapped" here (a one-field segment): so must the chained map
+                    if let Some((a, _)) = Map::resolve(&tsorted, l, c) {
+                        if a.src.is_some() {
+                            let asrc = a.src.and_then(|x| t.source_name(x)).unwrap_or_default();
+                            return Err(format!(
+                                "generated {l}:{c} resolves to {asrc}:{}:{} in the chained map but the original map has a source-less segment at the rewrite map's source position {}:{} (composition: unmapped)",
+                                a.sl, a.sc, rt.sl, rt.sc
+                            ));
+                        }
+                    }
+                }
                 if other.is_none() {
                     if let Some(tt) = tsorted.iter().find(|t| t.gl == l && t.gc == c && t.src.is_some()) {
                         let asrc = tt.src.and_then(|x| t.source_name(x)).unwrap_or_default();
@@ -660,6 +710,15 @@ impl Engine for C10 {
                         }
                         if p.lookalike {
                             st(&mut rep, "probe:lookalike-literal-present", 1);
+                        }
+                        for (text, needs_comments) in &p.planted {
+                            if *needs_comments && !comments {
+                                continue;
+                            }
+                            st(&mut rep, "probe:planted-multiline-text-checked", 1);
+                            if !code.contains(text.as_str()) {
+                                viol.push(Violation::new("K5", "K5:planted-text-altered", format!("[{tag}] program text {:?} is not in the output any more", text)));
+                            }
                         }
                     }
                     log.push(format!("{tag} -> status={} opens={:?} reads={} fired={:?} content={:016x}", out.status, out.stats.opens, out.stats.read_calls, out.stats.faults_fired, fnv64(out.content.as_bytes())));
